@@ -970,7 +970,11 @@ class Parser:
         if self.accept('id'):
             return self.create_node(IdNode, t)
         if self.accept('number'):
-            return self.create_node(NumberNode, t)
+            try:
+                return self.create_node(NumberNode, t)
+            except ValueError:
+                # int() refuses to convert very long digit strings
+                raise ParseException('Number literal is too long.', self.lexer.getline(t.line_start), t.lineno, t.colno)
         if self.accept_any(ALL_STRINGS):
             try:
                 return self.create_node(StringNode, t)
